@@ -44,6 +44,10 @@ func genSpecCases(prop, tier, out string, sum *Summary, g *Gen, depth int) {
 				distinct[text+"|"+toJSON(o.Value)] = true
 			}
 		}
+		if hasEnum(e) && orderSensitive(e) {
+			sum.count("not-compared/enumeration-then-position")
+			continue // a position or comparison applied to an enumerated array inherits the permitted variation
+		}
 		sh.Add(fmt.Sprintf("SC %d %s %s %s %s %s", id, coqR(e), hx(text), coqValue(doc), unordered, coqObs(o)))
 		sid := strconv.Itoa(id)
 		sum.Index[sid] = map[string]any{"expr": text, "doc": toJSON(doc), "observed": obsJSON(o)}
